@@ -32,5 +32,20 @@ ClassTable == {[shape |-> s, names |-> ns, types |-> ts, mnames |-> mn, embed |-
                  s \in MCShapes, ns \in NameSets, ts \in TypeSets, mn \in MethodNames, em \in BOOLEAN}   \* embed: A comes from an embedded interface
 Classes == {c \in ClassTable : Applicable(c.names, c.types, c.shape)}
 
+\* option placement table (MatryerMockContract!EffSwitch): every way ONE switch can be written across the four levels,
+\* with the value that is in force for the mock.  checks/c04.py composes a mock's three switches from rows of this table
+\* (the merge is per key), generates the mock with the real binary and replays the histories of the option set `eff`
+\* says on it; nset / overridden-by-false are what the vacuity guards count.
+PlaceTuples == [1..Len(PlaceLevels) -> PlaceVals]
+PlaceSet(t) == {i \in DOMAIN t : t[i] # "unset"}
+PlaceTable == {[lv |-> t, nset |-> Cardinality(PlaceSet(t)), eff |-> EffSwitch(t),
+                \* an inner explicit value contradicts the value the next outer writing level gives
+                flips |-> {<<PlaceLevels[q[1]], PlaceLevels[q[2]], t[q[2]]>> :
+                             q \in {p \in PlaceSet(t) \X PlaceSet(t) :
+                                      /\ p[1] < p[2] /\ t[p[1]] # t[p[2]]
+                                      /\ \A k \in PlaceSet(t) : ~(p[1] < k /\ k < p[2])}}] : t \in PlaceTuples}
+
+ASSUME PrintT(<<"PLACEMENTS", ToJson(PlaceTable)>>)
+
 ASSUME PrintT(<<"CLASSES", ToJson(Classes)>>)
 =============================================================================
